@@ -266,14 +266,21 @@ def cheapDigest (bs : List UInt8) : String := toHex (be32 (crc32 bs) ++ be32 (ad
 def showRes (r : Res Bytes) (f : Bytes → String) : String :=
   match r with
   | .ok b => f b
-  | .error e => "err:" ++ e.family
+  | .error e => "err<" ++ e.family ++ ">"
+
+/-- what the harness compares: that an exception was raised, not its class (the property names no class);
+    the family stays in the strings the heap model and `Spec.AliasSem` are compared on -/
+def relax (s : String) : String :=
+  let (out, _) := s.toList.foldl (fun (acc, skip) c =>
+      if skip then (acc, c != '>') else if c == '<' then (acc, true) else (c :: acc, false)) ([], false)
+  String.ofList out.reverse
 
 def showOut : Out → String
   | .done => "done" | .created => "created" | .na => "na" | .badRef => "badref"
   | .bytes r => "b:" ++ showRes r toHex
   | .bool (.ok b) => if b then "B:1" else "B:0"
-  | .bool (.error e) => "B:err:" ++ e.family
-  | .err e => "err:" ++ e.family
+  | .bool (.error e) => "B:err<" ++ e.family ++ ">"
+  | .err e => "err<" ++ e.family ++ ">"
 
 /-- a machine the driver can run a history on: the heap model or the value store -/
 structure Machine (σ : Type) where
@@ -490,11 +497,18 @@ def runHistoryL {σ} (m : Machine σ) (init : σ) (extra : σ → List Nat → O
       let (s1, o) := m.step s op'
       let tbl1 := tbl ++ [mi]
       let (s2, obs) := observeAll m (tbl.length % 2 == 1) s1 tbl1
-      (s2, tbl1, outs ++ [(showOut o, ex, obs)])) (init, [], [])
+      -- in-place edits of a sequence inside an immutable-class object: the property requires the object to be
+      -- unchanged afterwards (the observations), not a particular way of refusing (exception or edit of a copy)
+      let oStr := match op', o with
+        | .x (.witListEdit _ _ _), .err _ => "tried"
+        | .x (.stackEdit _ _ _), .err _ => "tried"
+        | _, _ => showOut o
+      (s2, tbl1, outs ++ [(oStr, ex, obs)])) (init, [], [])
   outs ++ [("end", "", endMatrix m sEnd tblEnd)]
 
 def render (verbose : Bool) (l : List (String × String × String)) : String :=
-  ";".intercalate (l.map fun (o, ex, obs) => o ++ ex ++ "#" ++ (if verbose then obs else digestStr obs))
+  ";".intercalate (l.map fun (o, ex, obs) =>
+    relax (o ++ ex) ++ "#" ++ (if verbose then relax obs else digestStr (relax obs)))
 
 def runHistory {σ} (m : Machine σ) (init : σ) (extra : σ → List Nat → OpY → String)
     (verbose : Bool) (ops : List OpY) : String :=
